@@ -254,6 +254,18 @@ fn c12(quick: bool) -> PropRun {
         let small = scripts_upto(2, &[0, 1], &MODES, &[40, 2000, 3000], &[0, 1]);
         for s in small.iter() { let mut env = env_live(6); env.flush_choice = true; scs.push(spec("C12.all", &grid[0], s, env, 2, oracles)); }
     }
+    // a TimeSensitive packet waits in the send queue behind a packet that the peer's receive allocation keeps back, for every number of
+    // steps from 1 to 600 (1100): the peer's application steps only every n-th round, so the allocation is released n rounds later.
+    // However long it waits (counters of steps wrap at 2^8, 2^16), it is stale by then and must never be transmitted.
+    {
+        use SendMode::*;
+        let si = Arc::new(ScriptInfo::new(vec![send(0, 0, 0, Reliable, 1000), send(0, 0, 0, Reliable, 600), send(0, 0, 0, TimeSensitive, 50), send(0, 0, 1, TimeSensitive, 51), send(1, 0, 0, Unreliable, 52)]));
+        for n in 1..=(if quick { 600usize } else { 1100 }) {
+            let cfg = LwCfg { pwin: 4096, fwin: 4096, rx_alloc: [1_000_000, 1000], step_every: [1, n], ..LwCfg::small() };
+            let env = LwEnv { fates: FATES_NONE, deltas: &[4], dev_rounds: 0, dev_start: 0, max_rounds: 3 * n + 400, skip_choice: false, flush_choice: false, blackouts: &[], stop_when_idle: false, fair_delta: 4, slow_after: usize::MAX, slow_delta: 250, fuel: 2_000_000, shifts: &[] };
+            scs.push(spec("C12.ts-behind-blocked-head", &cfg, &si, env, 0, O_C12));
+        }
+    }
     for sp in crate::props_ew::c12_api_specs(quick) { scs.push(crate::eprops::ew_scenario(sp)); }
     PropRun { level: "model_checking", scenarios: scs, units: vec![], replay_case: None, summary: lw_summary(
         "transmissions per (packet id, fragment id) read from the wire, acknowledgements from the frames handed to the sender; Unreliable/TimeSensitive at most once, TimeSensitive never first transmitted after the step following send(), Persistent/Reliable never retransmitted after a processed acknowledgement or a packet-window base beyond the packet, and at the horizon every such fragment is acknowledged, moved past or still scheduled",
